@@ -114,7 +114,7 @@ def cases(E):
         cs.append(Case("vf.contracts.c_labels.restore_scope_export_contract", f"{kind},exports={ex}", c02.shape_export(kind, ex), target=[Y + "Resolver.restore_scope"]))
     for kind in ("compound", "scope"):
         cs.append(Case("vf.contracts.c_codegen.balanced_scope_contract", kind, shape_balanced(kind), target=[G + "generate_compound", G + "generate_scope"]))
-    cs.append(Case("vf.contracts.c_codegen.generate_assign_frame_contract", "`a := expr` in a block whose enclosing scope binds `a`", shape_assign_frame, target=[G + "generate_assign", Y + "Scope.add_symbol"]))
+    cs += assign_frame_cases(E)
     # a macro argument that mentions a name is resolved in the scope of the CALL, also after sibling scopes that define the same name privately
     from vf.props import C09 as c09
     cs += [c for c in c09.own_cases(E)]
@@ -124,11 +124,22 @@ def cases(E):
     return cs
 
 
-def shape_assign_frame(B):
+def assign_frame_cases(E):
+    """`name := expr` binds in the CURRENT scope, whatever kind of scope that is: a block, a `.for` iteration (InternalScope), a named scope"""
+    return [Case("vf.contracts.c_codegen.generate_assign_frame_contract", f"`a := expr` in a {what} whose enclosing scope binds `a`", shape_assign_frame(cls, extra),
+                 target=[G + "generate_assign", Y + "Scope.add_symbol"])
+            for what, cls, extra in (("block", "Scope", {}), (".for iteration scope", "InternalScope", {}), ("named scope", "NamedScope", {"name": "s"}))]
+
+
+def shape_assign_frame(cls, extra):
+    return lambda B: _shape_assign_frame(B, cls, extra)
+
+
+def _shape_assign_frame(B, cls, extra):
     res = S.resolver(B)
     outer_v, v = B.int("outer_value"), B.int("value")
     root = S.root_symbols(B, res, {"a": outer_v, "src": v})
-    inner = S.scope(B, res, root)
+    inner = S.scope(B, res, root, cls="a816.symbols." + cls, **extra)
     B.I.hmut(B.st, B.I.hget(B.st, res).fields["scopes"]).items.append(inner)
     r = B.I.hmut(B.st, res)
     r.fields["current_scope"] = inner
